@@ -430,6 +430,7 @@ def parser_signatures(pdb, R=None):
         if '{closure' in p and False:
             continue
         fl = dataflow.Flow(pdb, fn)
+        T_ = exprtree.Trees(pdb, fn)
         d = {}
         for b in fn.blocks:
             if b.get('cleanup'):
@@ -442,12 +443,23 @@ def parser_signatures(pdb, R=None):
                     for k, o in zip(st['rv']['fields'], st['rv']['ops']):
                         key = f'{adt.split("::")[-1]}.{k}'
                         d[key] = sorted(set(d.get(key, [])) | set(_sig(pdb, fl.operand_leaves(o))))
+                        ixs = sorted(_const_indices(T_.operand(o)))
+                        if ixs:
+                            d[key + '#indices'] = sorted(set(d.get(key + '#indices', [])) | set(ixs))
         d['ret'] = _sig(pdb, fl.ret_ok if cfgmod.returns_result(fn) else fl.leaves(0))
         # which comparisons the function makes (== versus != is invisible in the leaf sets)
         cm = [t['f'].get('name') for _, t in fn.calls() if t['f'].get('name') in ('eq', 'ne', 'lt', 'le', 'gt', 'ge')]
         cm += [st['rv']['op'].lower() for b in fn.blocks if not b.get('cleanup') for st in b['stmts']
                if st['k'] == 'assign' and st['rv'].get('k') == 'bin' and st['rv']['op'] in ('Eq', 'Ne', 'Lt', 'Le', 'Gt', 'Ge')]
         d['comparisons'] = sorted(cm)
+        # how much arithmetic it does (a leaf set does not count: `len + 1` -> `len` next to another addition is invisible)
+        ar = [t['f'].get('name').replace('_assign', '') for _, t in fn.calls()
+              if t['f'].get('name') in ('add', 'sub', 'mul', 'div', 'rem', 'pow', 'shl', 'shr', 'add_assign', 'sub_assign', 'mul_assign',
+                                        'checked_add', 'checked_sub', 'checked_mul', 'wrapping_add', 'wrapping_sub', 'field_div', 'floor_div')]
+        ar += [st['rv']['op'].replace('WithOverflow', '').lower() for b in fn.blocks if not b.get('cleanup') for st in b['stmts']
+               if st['k'] == 'assign' and st['rv'].get('k') == 'bin' and
+               st['rv']['op'].replace('WithOverflow', '') in ('Add', 'Sub', 'Mul', 'Div', 'Rem', 'Shl', 'Shr', 'BitAnd', 'BitOr', 'BitXor')]
+        d['arithmetic'] = sorted(ar)
         out[p] = d
     return out
 
@@ -475,9 +487,26 @@ def parser_mapping(pdb, rep, R):
                 continue
             n += 1
             if c[key] != sig:
-                add = sorted(set(c[key]) - set(sig))
-                gone = sorted(set(sig) - set(c[key]))
+                from collections import Counter
+                ca, cb = Counter(map(str, c[key])), Counter(map(str, sig))
+                add = sorted((ca - cb).elements())
+                gone = sorted((cb - ca).elements())
                 diffs.append(f'{key}: now also from {add[:4]}, no longer from {gone[:4]}')
         rep.ob('C19.mapping', p, not diffs, f'{p.split("::")[-1]}: {len(d)} derived values' + (' as confirmed' if not diffs else '; changed: ' + '; '.join(diffs[:3])),
                pdb.fns[p].loc(), 'parser')
     rep.floor('C19.mapping', 'derived values compared with the table', n, 60)
+
+
+def _const_indices(t):
+    out = []
+    if isinstance(t, tuple):
+        if t and t[0] == 'idx' and len(t) == 2 and isinstance(t[1], tuple) and t[1] and t[1][0] == 'val':
+            out.append(t[1][1])
+        if t and t[0] == 'cidx' and len(t) >= 2 and isinstance(t[1], int):
+            out.append(t[1])
+        for x in t[1:]:
+            out += _const_indices(x)
+    elif isinstance(t, dict):
+        for x in t.values():
+            out += _const_indices(x)
+    return out
